@@ -1,8 +1,10 @@
 SPECIFICATION Spec
 CONSTANTS
   CAP = 2
-  N = 7
+  N = 6
   STRICT = TRUE
+  CANCELREJ = FALSE
+  FAST = TRUE
 INVARIANT QueueBound
 INVARIANT FloodBound
 INVARIANT Answered
